@@ -62,16 +62,22 @@ def symvals(symtext):
 
 
 def macro_stream(chk, R, rng, n, size_static, tag):
-    cases = []
-    for i in range(n):
+    # candidates are pre-selected on the IN-PLACE program's outcome (all that assemble, one in five of the rejected ones):
+    # rejected macro programs of depth 2-3 cost (budget+1)^depth inner rounds in the debug build
+    cand = []
+    for i in range(3 * n):
         prog, inl, feats, depth = c17_gen.gen_macro_case(rng, size_static=size_static)
-        b = 10 if rng.chance(0.5) else 30
+        b = 10 if (rng.chance(0.6) or depth >= 3) else 30
         s, m = rng.chance(0.5), rng.chance(0.5)
         mt = prog.text()
         it = prog.isa.text() + '\n'.join(inl.lines()) + '\n'
-        cases.append(dict(prog=prog, inl=inl, feats=feats, depth=depth, b=b, s=s, m=m, mt=mt, it=it))
+        cand.append(dict(prog=prog, inl=inl, feats=feats, depth=depth, b=b, s=s, m=m, mt=mt, it=it, keep=rng.chance(0.2)))
+    ib_all = R.impl([(c['it'], c['b'], c['s'], c['m']) for c in cand])
+    cases, ib = [], []
+    for c, a in zip(cand, ib_all):
+        if len(cases) < n and (a.startswith("OK") or c['keep']):
+            cases.append(c); ib.append(a)
     ia = R.impl([(c['mt'], c['b'], c['s'], c['m']) for c in cases])
-    ib = R.impl([(c['it'], c['b'], c['s'], c['m']) for c in cases])
     da = R.model_run([(c['inl'], c['b'], c['m']) for c in cases], mode="denote")
     ma = R.model_run([(c['inl'], c['b'], c['m']) for c in cases])
     dist = {"both_ok": 0, "both_rejected": 0, "static": 0, "nonstatic": 0, "needs_more_passes_than_inlined": 0,
